@@ -101,7 +101,9 @@ def check_one(buf, entry="dex"):
     if oc in ("loop", "inconclusive"):
         return "hang", "%s in %s after %d steps" % (oc, res["where"] or res["owner"], res["steps"])
     outside = None
-    for sid, pos, asked, got in res["log"]:
+    for sid, pos, asked, got in (res["log"] if entry != "apk" else ()):     # (through an APK object the archive's own
+        #                                                                      streams are read too: there only the wrapped
+        #                                                                      add_type_item decides "before any structure")
         if sid != 1:
             outside = ("second-stream", pos)
             break
@@ -223,6 +225,9 @@ def worker(seed):
     v, d = check_one(raw, "odex")
     if v != "accepted":
         raise HarnessError(f"pristine file {name} is not accepted by ODEX(): {v} {d}")
+    v, d = check_one(raw, "apk")
+    if v != "accepted":
+        raise HarnessError(f"pristine file {name} is not accepted by DEX(APK object): {v} {d}")
     pr = iosim.parse("dex", raw, keep_log=True, clock=False)
     structural = bytearray(len(raw))
     for sid, pos, asked, got in pr["log"]:
@@ -245,10 +250,12 @@ def worker(seed):
         b = bytearray(raw)
         for val in vals:
             b[off] = val
-            entry = "odex" if (off + val) % 5 == 0 else "dex"
+            entry = "odex" if (off + val) % 5 == 0 else ("apk" if (off * 7 + val) % 53 == 0 else "dex")
             verdict, detail = check_one(bytes(b), entry)
             if entry == "odex":
                 fired["entry:ODEX(buf)"] = fired.get("entry:ODEX(buf)", 0) + 1
+            elif entry == "apk":
+                fired["entry:DEX(APK object)"] = fired.get("entry:DEX(APK object)", 0) + 1
             n += 1
             fired["stored-byte"] += 1
             if structural[off]:
@@ -256,10 +263,10 @@ def worker(seed):
             if verdict == "rejected":
                 exc_kinds[detail] = exc_kinds.get(detail, 0) + 1
                 continue
-            sig = f"C09:{verdict}:{region_of(raw, off)}" + (":via-ODEX" if entry == "odex" else "")
+            sig = f"C09:{verdict}:{region_of(raw, off)}" + (":via-ODEX" if entry == "odex" else (":via-APK-object" if entry == "apk" else ""))
             if sig not in problems:
                 problems[sig] = {"msg": f"{name}: byte at offset {off} changed {orig:#04x} -> {val:#04x}: {verdict} ({detail})"
-                                        + (" through ODEX(buf)" if entry == "odex" else ""),
+                                        + (" through ODEX(buf)" if entry == "odex" else (" through DEX(APK object)" if entry == "apk" else "")),
                                  "fault": ["byte", off, val, entry]}
     for desc, buf, wrong in header_faults(r, raw):
         if not wrong:
@@ -348,7 +355,7 @@ def _sig(raw, fault):
     verdict, detail = check_one(_apply(raw, fault), entry)
     if verdict == "rejected":
         return None, detail
-    tail = ":via-ODEX" if entry == "odex" else ""
+    tail = ":via-ODEX" if entry == "odex" else (":via-APK-object" if entry == "apk" else "")
     if fault[0] == "byte":
         return f"C09:{verdict}:{region_of(raw, fault[1])}" + tail, detail
     return f"C09:{verdict}:header-field:{fault[5 - 1] if fault[1] == 'combo' else fault[1]}" + tail, detail
